@@ -15,6 +15,10 @@ import json, os, sys, subprocess, hashlib, shutil, decimal
 if __name__ == '__main__':
     sys.path.insert(0, os.path.join(os.path.dirname(os.path.abspath(__file__)), '..', 'lib'))
 import vf
+try:
+    from checks import c11_uri
+except ImportError:      # run as a script (python3 checks/c11.py refcheck ...)
+    import c11_uri
 
 PROP = 'C11'
 QUICK = ['gen/MC_C11atoms_q.cfg', 'gen/MC_C11scope_q.cfg', 'gen/MC_C11uneval_q.cfg', 'gen/MC_C11refs_q.cfg', 'gen/MC_C11nest1_q.cfg', 'gen/MC_C11pairs_q.cfg',
@@ -126,6 +130,7 @@ def setup():
     gens('quick')
     vf.tlc_gen('gen/MC_C11valid', VALID_CFG, timeout=1500)
     vf.tlc_gen('gen/MC_C11', IDENT_CFG, timeout=1500)
+    c11_uri.setup()
 
 
 def run(tier):
@@ -155,7 +160,11 @@ def run(tier):
         if so['disagreements'] or so['meta_schema_failures']:
             raise vf.InfraError('specification and reference validator disagree on sampled cases: %s' % json.dumps(so['examples'][:3])[:1500])
     totals = vf.g_replay(rep, binary, g, sig, args=['--base', base], max_repro=60)
+    # reference-resolution family (spec/Uri.tla): base URI x nested "$id" x reference, JSON Pointer fragments
+    uri_totals = {}
+    c11_uri.run_family(rep, tier, uri_totals)
     cov = rep.coverage
+    cov['uri_evaluations'] = uri_totals.get('checks', 0)
     cov['traces_validated_against_impl'] = totals.get('cases', 0)
     cov['evaluations'] = totals.get('checks', 0)
     cov['distinct_nontrivial'] = totals.get('instances', 0)     # distinct (dialect, schema, instance) triples executed against the library
@@ -173,7 +182,10 @@ def run(tier):
                    'required members present/absent, one level down through every applicator) x 6 presentations (json, ojson, member order reversed / '
                    'alternating, "$schema" vs default_version, verdict-neutral options) x entry points; one case = one (dialect, schema); '
                    'distinct_nontrivial counts the distinct (dialect, schema, instance) triples with a defined verdict that were executed, evaluations '
-                   'counts the individual library calls compared')
+                   'counts the individual library calls compared; plus the reference-resolution family (spec/Uri.tla, RFC 3986 section 5.2): 14 base URIs x '
+                   'nested relative "$id" x references built from dot / dot-dot / empty / ordinary segments (relative-path, absolute-path, network-path, absolute), '
+                   'query, empty fragment, with the identifier addressed and near-miss identifiers, and JSON Pointer fragments whose tokens need ~ escapes and '
+                   'percent-encoding (28 member names x encodings), in all five dialects, json and ojson (coverage.uri_cases / uri_evaluations)')
     cov['bounds'] = {c: open(os.path.join(vf.SPEC, c)).read().split('CONSTANTS')[1].split() for c in CFG[tier]}
     cov['samples'] = vf.sample_lines(g[0][0], 2) + vf.sample_lines(g[1][0], 1)
     cov['dont_care_cases'] = totals.get('dontcare', 0)
@@ -181,7 +193,7 @@ def run(tier):
     rep.assumptions += ['numbers are small integers and decimals with one or two fraction digits, handed to the library as int64 and as the nearest double; '
                         '(instance, divisor) pairs of multipleOf that are not both multiples of 1/4 (result depends on binary floating-point rounding) are run but '
                         'their verdict is not compared; strings are code-point sequences; regular expressions, format, content*, remote references, '
-                        '$dynamicRef/$recursiveRef and base-URI changing $id are outside the modelled vocabulary',
+                        '$dynamicRef/$recursiveRef are outside the modelled vocabulary; a base-URI changing $id is exercised by the reference-resolution family only',
                         '(schema, instance) pairs whose evaluation would not terminate (reference cycles without instance descent) are never run',
                         'Draft 2019-09 schemas that combine "contains" and "unevaluatedItems" are a declared dont-care class (the specification text and the reference validator disagree)']
     return rep.finish(dict(harness='c11', base=base))
@@ -189,6 +201,8 @@ def run(tier):
 
 def replay(path):
     d = json.load(open(path))
+    if c11_uri.is_uri_case(d.get('case')):
+        return c11_uri.replay(path, d['case'], PROP)
     binary = vf.build('c11', ['c11.cpp'])
     recs = vf.run_one(binary, d['case'], args=['--base', base_file()])
     bad = [r for r in recs if r.get('k') != 'stat']
